@@ -32,6 +32,7 @@ import SharkVerif.Lemmas.McSimplex
 import SharkVerif.Lemmas.McLinearMc
 import SharkVerif.Lemmas.McBias
 import SharkVerif.Lemmas.McSolveStuck
+import SharkVerif.Lemmas.McDecision
 namespace SharkVerif.C16
 open SharkVerif.Mc SharkVerif.Gen.McTables SharkVerif.McTables
 
@@ -538,5 +539,90 @@ theorem bias_delta_additive (nu : Nat → Row Rat) (P : Nat) (labels : Nat → N
 /-- non-vacuity: a history with two solves around a bias step -/
 example : biasSum [.solve 1 10, .update (fun c => if c = 0 then 1 else -1), .solve 1 10] 0 = 1 := by
   simp [biasSum]
+
+/-! ## 10. The decision-function map `Σ_p ν·α` and what the solver accuracy says about the decision function -/
+
+/-- centred coefficient of class `k` contributed by the dual variable `(y, p)`: `ν(y,p,k) − (Σ_k' ν(y,p,k'))/c` -/
+def nuC (f : Family) (c y p k : Nat) : Rat := nuAt (f.nu c) (f.P c) y p k - nuSum (f.nu c) c (f.P c) y p / c
+
+/-- the coefficient the trainer writes into the decision function for example `i` and class `k`
+(`CSvmTrainer::train`: `alpha(i,k) = Σ_p nu(P·y_i+p, k)·alpha(i,p)`), centred over the classes -/
+def decCoef (f : Family) (c : Nat) (labels : Nat → Nat) (d : Nat → Rat) (i k : Nat) : Rat :=
+  ∑ p ∈ Finset.range (f.P c), nuC f c (labels i) p k * d (f.P c * i + p)
+
+/-- **the dual quadratic form is the squared norm of the (centred) decision function**: for every formulation
+family, class count `c ≥ 2`, data and every vector `δ` of dual variables,
+`δᵀ (M ⊗ K) δ = Σ_k Σ_{i,j} D(i,k)·K(i,j)·D(j,k)` with `D = decCoef δ`.  (For WW/CS the coefficient vectors sum to
+zero, so centring changes nothing.) -/
+theorem decision_map_quadratic (f : Family) (c n : Nat) (hc : 2 ≤ c) (C : Rat) (K : Nat → Nat → Rat)
+    (labels : Nat → Nat) (hl : ∀ i < n, labels i < c) (linMat : Nat → Nat → Rat) (d : Nat → Rat) :
+    ∑ v ∈ Finset.range (f.P c * n), ∑ w ∈ Finset.range (f.P c * n), d v * (problem f c n C K labels linMat).Q v w * d w
+      = ∑ k ∈ Finset.range c, ∑ i ∈ Finset.range n, ∑ j ∈ Finset.range n,
+          decCoef f c labels d i k * K i j * decCoef f c labels d j k := by
+  have hP : 0 < f.P c := by cases f <;> simp [Family.P] <;> omega
+  have hQ : ∀ v ∈ Finset.range (f.P c * n), ∀ w ∈ Finset.range (f.P c * n),
+      d v * (problem f c n C K labels linMat).Q v w * d w
+        = d v * ((∑ k ∈ Finset.range c, nuC f c (labels (v / f.P c)) (v % f.P c) k * nuC f c (labels (w / f.P c)) (w % f.P c) k)
+            * K (v / f.P c) (w / f.P c)) * d w := by
+    intro v hv w hw
+    have hvn : v / f.P c < n := Nat.div_lt_of_lt_mul (Finset.mem_range.mp hv)
+    have hwn : w / f.P c < n := Nat.div_lt_of_lt_mul (Finset.mem_range.mp hw)
+    have h := M_is_centred_gram_all f c hc (labels (v / f.P c)) (v % f.P c) (labels (w / f.P c)) (w % f.P c)
+      (hl _ hvn) (Nat.mod_lt _ hP) (hl _ hwn) (Nat.mod_lt _ hP)
+    have hce := centred_gram_eq c (by omega)
+      (fun (x : Nat) k => nuAt (f.nu c) (f.P c) (labels (x / f.P c)) (x % f.P c) k) v w
+    unfold mAt Sparse.get gramCentered gram at h
+    have hq : (problem f c n C K labels linMat).Q v w
+        = (∑ k ∈ Finset.range c, nuC f c (labels (v / f.P c)) (v % f.P c) k * nuC f c (labels (w / f.P c)) (w % f.P c) k)
+            * K (v / f.P c) (w / f.P c) := by
+      simp only [problem, McBox.Q, McBox.init, McBox.Mget]
+      rw [Nat.mul_comm (f.P c) (labels (v / f.P c)), h]
+      unfold nuC nuSum
+      rw [← hce]
+    rw [hq]
+  rw [Finset.sum_congr rfl fun v hv => Finset.sum_congr rfl fun w hw => hQ v hv w hw]
+  rw [kron_quadratic (f.P c) n c hP (fun v k => nuC f c (labels (v / f.P c)) (v % f.P c) k) K d]
+  have hdiv : ∀ i p, p < f.P c → (f.P c * i + p) / f.P c = i ∧ (f.P c * i + p) % f.P c = p := by
+    intro i p hp
+    constructor
+    · rw [Nat.add_comm, Nat.add_mul_div_left _ _ hP, Nat.div_eq_of_lt hp, Nat.zero_add]
+    · rw [Nat.mul_add_mod, Nat.mod_eq_of_lt hp]
+  have hD : ∀ i k, ∑ p ∈ Finset.range (f.P c),
+        nuC f c (labels ((f.P c * i + p) / f.P c)) ((f.P c * i + p) % f.P c) k * d (f.P c * i + p)
+      = decCoef f c labels d i k := by
+    intro i k
+    unfold decCoef
+    refine Finset.sum_congr rfl fun p hp => ?_
+    rw [(hdiv i p (Finset.mem_range.mp hp)).1, (hdiv i p (Finset.mem_range.mp hp)).2]
+  simp only [hD]
+
+/-- **two configurations that both stop with accuracy `eps` have close decision functions**: for any two feasible
+eps-KKT points `a`, `b` of the dual of a generated problem, the difference `D = decCoef (b − a)` of the decision
+coefficients satisfies `Σ_k Σ_{i,j} D(i,k) K(i,j) D(j,k) ≤ 2·eps·(P·n)·C` — the squared RKHS norm of the difference of
+the (centred) decision functions; by Cauchy–Schwarz `|Δf_k(x)| ≤ sqrt(2·eps·P·n·C·k(x,x))`, half of the tolerance
+`2·sqrt(2·eps·n·P·C)·sqrt(k(x,x))` the trainer-level comparison applies. -/
+theorem stopped_configurations_close_decision (f : Family) (c n : Nat) (hc : 2 ≤ c) (C : Rat) (hC : 0 ≤ C)
+    (K : Nat → Nat → Rat) (hK : ∀ i j, K i j = K j i) (labels : Nat → Nat) (hl : ∀ i < n, labels i < c)
+    (linMat : Nat → Nat → Rat) (eps : Rat) (heps : 0 ≤ eps) (a b : Nat → Rat)
+    (ha : Feasible (f.P c * n) C a) (hb : Feasible (f.P c * n) C b)
+    (hka : KKTeps (f.P c * n) C eps a (dualGrad (f.P c * n) (problem f c n C K labels linMat).lin (problem f c n C K labels linMat).Q a))
+    (hkb : KKTeps (f.P c * n) C eps b (dualGrad (f.P c * n) (problem f c n C K labels linMat).lin (problem f c n C K labels linMat).Q b)) :
+    ∑ k ∈ Finset.range c, ∑ i ∈ Finset.range n, ∑ j ∈ Finset.range n,
+        decCoef f c labels (fun v => b v - a v) i k * K i j * decCoef f c labels (fun v => b v - a v) j k
+      ≤ 2 * (eps * (f.P c * n : Nat) * C) := by
+  rw [← decision_map_quadratic f c n hc C K labels hl linMat (fun v => b v - a v)]
+  have hinv := invariants_initially f c n hc C hC K hK labels hl linMat
+  exact two_kkt_points_close_quadratic (f.P c * n) _ _ C eps heps
+    (fun v hv w hw => Q_symm _ hinv v w hv hw) a b ha hb hka hkb
+
+/-- non-vacuity of the hypotheses: the zero vector is feasible and 1-KKT for the fresh MMR problem with one example
+(gradient `= lin = 1`) -/
+example : Feasible 1 1 (fun _ => (0 : Rat)) ∧
+    KKTeps 1 1 1 (fun _ => (0 : Rat)) (dualGrad 1 (problem .MMR 2 1 1 (fun _ _ => 1) (fun _ => 0) (fun _ _ => 1)).lin
+      (problem .MMR 2 1 1 (fun _ _ => 1) (fun _ => 0) (fun _ _ => 1)).Q (fun _ => 0)) := by
+  refine ⟨fun v _ => by norm_num, fun v hv => ?_⟩
+  have : v = 0 := by omega
+  subst this
+  simp [dualGrad, problem, McBox.init]
 
 end SharkVerif.C16
